@@ -251,8 +251,25 @@ func (p *Program) opaqueErrType() types.Type {
 	return opaqueErrT
 }
 
+var opaqueFileInfoT types.Type
+
+// opaqueFileInfoType is the dynamic type of the os.FileInfo values the os.Stat stub returns.
+func (p *Program) opaqueFileInfoType() types.Type {
+	p.fnMu.Lock()
+	defer p.fnMu.Unlock()
+	if opaqueFileInfoT == nil {
+		tn := types.NewTypeName(0, nil, "verifFileInfo", nil)
+		named := types.NewNamed(tn, types.NewStruct(nil, nil), nil)
+		opaqueFileInfoT = types.NewPointer(named)
+	}
+	return opaqueFileInfoT
+}
+
 func (st *State) specialImplements(iv IfaceV, T types.Type) bool {
 	if iv.T == st.p.opaqueErrType() && T.String() == "error" {
+		return true
+	}
+	if iv.T == st.p.opaqueFileInfoType() && (T.String() == "os.FileInfo" || T.String() == "io/fs.FileInfo") {
 		return true
 	}
 	return false
@@ -265,6 +282,21 @@ func (st *State) specialInvoke(recv IfaceV, m *types.Func, args []Value) (Value,
 			msg := st.errMsgs[recv.V.(*Term).C]
 			return st.constString(msg), true
 		}
+	}
+	if recv.T == st.p.opaqueFileInfoType() {
+		path := st.errMsgs[recv.V.(*Term).C]
+		switch m.Name() {
+		case "Size":
+			if f := st.fs.files[path]; f != nil {
+				return st.c.Const(64, uint64(len(f.data))), true
+			}
+			return st.zero64, true
+		case "IsDir":
+			return st.c.Bool(st.fs.dirs[path]), true
+		case "Name":
+			return st.constString(path), true
+		}
+		st.abort(abUnsupported, "os.FileInfo."+m.Name())
 	}
 	if rt, ok := recv.V.(RTypeV); ok {
 		switch m.Name() {
